@@ -11,6 +11,7 @@ import Revm.Proofs.EvmLinkEther9
 import Revm.Proofs.EvmLinkStatic6
 import Revm.Proofs.EvmLinkTerm
 import Revm.Proofs.EvmLinkTotal4
+import Revm.Proofs.EvmLinkInit
 /-! C01Link — the whole-transaction model `Revm.Model.Evm.transact` (C01) SATISFIES the component properties.
 
 `Evm.transact` (EvmTx / EvmFrame / EvmLoop / EvmHost) was written independently of the component models that carry the
@@ -864,13 +865,14 @@ balances are words) and 256-bit balances in the database. Failures are classifie
 journal / frame / interpreter code: the code store does not know a hash (`code_by_hash`: a database miss), an executable
 precompile panics (C23: MODEXP on a huge length and gas limit does, so unconditional panic-freedom is FALSE), a missing
 oracle answer, a fatal database error; `Resid` — NOT excluded here: interpreter faults (`interpreter: …`,
-`insert outcome: …`, `free_context`, an EOFCREATE action, an internal result flag), and the fuel. `sload` / `sstore` /
+`insert outcome: …`, `free_context`, an EOFCREATE action), and the fuel. No frame ends with an internal result flag
+(`RGood`: the strict gas sweep also carries the `InstructionResult` of every halt), so `output` never panics. `sload` / `sstore` /
 `selfdestruct` on a vacant account cannot happen: the request carries the frame's own address, which is loaded. The two environment panics (`already checked`, `initcode_cost`) are
 impossible for EVERY environment (`tv_validateEnv_ne_panic`, `initialTxGas_ne_none`). Everything else —
 every `unwrap` of the journal and of the frame machine: `load_account`, `load_code`, `load_account_delegated`, `touch`,
 `transfer`, `checkpoint_revert`, `inc_nonce`, `create_account_checkpoint`, `set_code`, `tstore`, `account not loaded`,
-`code not cached`, `empty call stack`, `already checked`, `initcode_cost`, `sload`, `sstore`, `selfdestruct` — is proved
-impossible. -/
+`code not cached`, `empty call stack`, `already checked`, `initcode_cost`, `sload`, `sstore`, `selfdestruct`,
+`unexpected internal return flag` — is proved impossible. -/
 
 open Revm.Proofs.Frame (Good DbBal) in
 /-- LINK (C07 `hostStep_total` on EvmHost): every `Host` answer on a well-formed world, with the account whose storage is
@@ -899,7 +901,7 @@ world (`LI`) and whose targets are loaded (L3 `EvmInstLoaded.Inv`), `run_the_loo
 failure -/
 theorem evm_runLoop_total (cfg : Cfg) (fuel : Nat) (stack : List JFrame) (w : World) (hne : stack ≠ [])
     (h : LI stack w) (hi : Revm.Proofs.EvmInstLoaded.Inv stack w) :
-    Tot2 (runLoop journalOps cfg fuel stack w) (fun p => WOk p.2) :=
+    Tot2 (runLoop journalOps cfg fuel stack w) (fun p => WOk p.2 ∧ RGood p.1.result) :=
   (tot2_runLoop cfg fuel).1 stack w hne h hi
 
 /-- LINK: the `HostOp` an interpreter step emits for SLOAD / SSTORE / SELFDESTRUCT carries the frame's own address
@@ -936,7 +938,8 @@ theorem transact_no_journal_panic (fuel : Nat) (w : World) (e : Evm.Env) (spec :
 failures. NOT proved: what is missing is (1) C25's per-frame invariant (`init_inv` for the frames `makeFrame` creates —
 code and input within `isize::MAX`, fresh memory context below 2^62 — `step_good` with `RespOk` for every `Host` answer
 and `ChildOk` for every delivered result, `insert_*_outcome` on the memory the child gives back), which removes
-`interpreter: …`, `insert outcome: …`, `free_context`, the EOFCREATE action and the internal result flags. Items (2)
+`interpreter: …`, `insert outcome: …`, `free_context` and the EOFCREATE action (the internal result flags are
+excluded: `RGood`). Items (2)
 (storage requests only for the frame's own loaded address) and (3) (environment) of the earlier list are closed. -/
 def FullStatement_transact_total_link : Prop :=
   ∀ (fuel : Nat) (w : World) (e : Evm.Env) (spec : Nat), WOk w → 2 * e.tx.gasLimit + 2 ≤ fuel →
@@ -944,9 +947,9 @@ def FullStatement_transact_total_link : Prop :=
 
 /-- COROLLARY, in the shape of C01 `FullStatement_transact_total`: on the fresh world of a pre-state with 256-bit
 balances, with the fuel bound stated there, the answer is a result, or an error that is soft (code-store miss,
-precompile panic, oracle miss, fatal) or one of the five residual interpreter-side panics — and never "out of fuel".
+precompile panic, oracle miss, fatal) or one of the four residual interpreter-side panics — and never "out of fuel".
 What separates this from `FullStatement_transact_total`: its `.error _ => False` for panics needs the five residual
-messages excluded (C25's invariant through the loop) and cannot hold for the precompile panic (C23) nor, without a
+messages excluded (C25's invariant through the loop; the EOFCREATE action is an artefact of the legacy-only model) and cannot hold for the precompile panic (C23) nor, without a
 consistent code store, for `code_by_hash`. -/
 theorem transact_total_fresh_partial (spec : Nat) (pre : List PreAcct) (dbHasStorage : Bool)
     (oracle : List PcAnswer) (e : Evm.Env) (hbal : ∀ p ∈ pre, p.balance < W) :
@@ -958,6 +961,38 @@ theorem transact_total_fresh_partial (spec : Nat) (pre : List PreAcct) (dbHasSto
   rcases transact_total_partial (2 * e.tx.gasLimit + 2) _ e spec hw (Nat.le_refl _) with ⟨o, w', h, _⟩ | ⟨err, h, h1, h2⟩
   · rw [h]; trivial
   · rw [h]; exact ⟨h1, h2⟩
+
+/-! ### ingredients for the residual interpreter-side panics (C25's per-frame invariant), proved but not yet threaded
+
+`init_inv` for the states `makeFrame` creates and `RespOk` for the answers of EvmHost. Still to do: the code-store size
+invariant along the run, the bound on the shared memory (2^62) per depth, `ChildOk` (output length) for delivered
+results and the memory-context facts of `insert_*_outcome` through `runLoop`. -/
+
+/-- LINK (C25 `init_inv` without its `Bytes` hypothesis): the initial interpreter state on ANY code satisfies C25's
+invariant — the jump analysis marks a position only where the opcode is JUMPDEST, so never in the padding -/
+theorem evm_init_inv_any_code (code input : List Nat) (gasLimit : Nat) (isStatic : Bool)
+    (spec target caller callValue : Nat) (env : Interp.Env) (mem : Memory.SharedMemory)
+    (hcl : code.length ≤ Memory.ISIZE_MAX) (hil : input.length ≤ Memory.ISIZE_MAX) (hgas : gasLimit < U64)
+    (henv : Revm.Proofs.Interp.EnvOk spec env) (hmem : Revm.Proofs.Interp.FreshMem mem) :
+    Revm.Proofs.Interp.Inv (Interp.IState.init code input gasLimit isStatic spec target caller callValue env mem) :=
+  (init_inv' code input gasLimit isStatic spec target caller callValue env mem hcl hil hgas henv hmem).1
+
+/-- LINK: the frame `make_create_frame` opens satisfies C25's invariant, with measure = its gas limit -/
+theorem evm_create_frame_init_inv (cfg : Cfg) (w w' : World) (i : Interp.CreateInputs) (mem : Memory.SharedMemory)
+    (f : Frame Journal.Checkpoint) (h : makeCreateFrame journalOps cfg w i mem = .ok (.frame f, w'))
+    (hcl : i.initCode.length ≤ Memory.ISIZE_MAX) (hg : i.gasLimit < U64)
+    (henv : Revm.Proofs.Interp.EnvOk cfg.spec cfg.env) (hm : Revm.Proofs.Memory.WF mem)
+    (hl : mem.buffer.length ≤ 2^62) :
+    Revm.Proofs.Interp.Inv f.interp ∧ Revm.Proofs.Interp.measure f.interp = i.gasLimit :=
+  makeCreateFrame_init_inv h hcl hg henv hm hl
+
+/-- LINK (C25 `RespOk` for EvmHost): with a code store whose entries are at most `isize::MAX` bytes, every `Host`
+answer is acceptable to the interpreter -/
+theorem evm_host_respOk (he : HostEnv) (w w1 : World) (op : Interp.HostOp) (resp : Interp.HostResp)
+    (h : answer he w op = .ok (resp, w1))
+    (hc : ∀ (wx : World) (hh : Nat) (bytes : List Nat), wx.codes = w.codes → wx.codeOf hh = some bytes →
+      bytes.length ≤ Memory.ISIZE_MAX) : Revm.Proofs.Interp.RespOk resp :=
+  answer_respOk h hc (fun _ _ _ hl => w_loadCode_codes hl)
 
 /-- non-vacuity: the sample world is well formed -/
 example : WOk sampleWorld := wok_fresh sampleWorld 17 (fun _ => false) rfl (by
